@@ -32,15 +32,20 @@ package transactions
 //@   modifies qFin(ts)[id], vHas(ts.State), vVal(ts.State)
 //@   ensures result0 && err == nil ==> !qFin(ts)[id]
 
-// iteration over the queue (State.IterateRange: committed keys only); every yielded transaction is a queued one
-//@ assume func (*TransactionStore).IterateExpired
-//@   iterator
-//@   requires ts != nil
-//@   modifies nothing
-//@   yields y1 != nil && qExp(ts)[y0]
+// iteration over the queue, verified on its body (prefix scan through the assumed storage.(*State).IterateRange):
+// every transaction handed to fn is a non-nil decoded object, and the scan stops early only when fn asks for it.
+// Completeness is not claimed (the scan walks committed keys only), nor that the yielded id is still queued (that would
+// need the typed view of the queue; the runners do not rely on it).
+// KNOWN FAILING, real code: the wrapper `return true`s when a value does not decode, which silently ends the whole scan
+// (iter-stop[iter1]).
+//@ func (*TransactionStore).IterateExpired
+//@   iterator                                   // C14.queue-scan
+//@   requires ts != nil && ts.State != nil
+//@   modifies exhausted(ts.State.cache), exhausted(ts.State.txSession)
+//@   yields y1 != nil                           // C14.queue-scan
 
-//@ assume func (*TransactionStore).IterateFinalized
-//@   iterator
-//@   requires ts != nil
-//@   modifies nothing
-//@   yields y1 != nil && qFin(ts)[y0]
+//@ func (*TransactionStore).IterateFinalized
+//@   iterator                                   // C14.queue-scan
+//@   requires ts != nil && ts.State != nil
+//@   modifies exhausted(ts.State.cache), exhausted(ts.State.txSession)
+//@   yields y1 != nil                           // C14.queue-scan
